@@ -2,12 +2,16 @@
 
 use serde_json::Value;
 
+pub mod codec;
+pub mod huffman;
 pub mod index;
 pub mod stack;
 
 pub fn replay(property: &str, engine: &str, case: &Value) -> Result<(), String> {
     match engine {
         "stack" => stack::replay(property, case),
+        "huffman" => huffman::replay(case),
+        "codec" => codec::replay(case),
         "index" => index::replay(case),
         _ => Err(format!("unknown engine {engine:?} in replay file")),
     }
